@@ -117,13 +117,14 @@ def scenarios(thorough: bool):
         tag = "%s,%s,%s,%s" % (cone, "island" if island else "noisland", solver, jac)
         out.append(("mixed[%s]" % tag, mixed(cone, island, solver, jac)))
         out.append(("chain8[%s]" % tag, chain(8, cone, island, solver, jac)))
-        out.append(("clump5[%s]" % tag, clump(5, cone, island, solver, jac)))
-        out.append(("islands4[%s]" % tag, islands(4, cone, island, solver, jac)))
-        out.append(("spheres6[%s]" % tag, spheres(6, cone, island, solver, jac)))
+        # the large families need 70-220 KB each: cone x island x {Newton dense, PGS sparse}
+        if (solver, jac) in (("Newton", "dense"), ("PGS", "sparse")):
+            out.append(("clump5[%s]" % tag, clump(5, cone, island, solver, jac)))
+            out.append(("islands4[%s]" % tag, islands(4, cone, island, solver, jac)))
+            out.append(("spheres6[%s]" % tag, spheres(6, cone, island, solver, jac)))
         if solver == "Newton" and jac == "dense":
             out.append(("clump5-nomidphase[%s]" % tag, clump(5, cone, island, solver, jac, midphase=False)))
     out.append(("pairs8[pyramidal,island,Newton,dense]", pairs(8, "pyramidal", True, "Newton", "dense")))
     out.append(("pairs16[elliptic,noisland,PGS,sparse]", pairs(16, "elliptic", False, "PGS", "sparse")))
     out.append(("spheres20[pyramidal,island,Newton,sparse]", spheres(20, "pyramidal", True, "Newton", "sparse")))
-    out.append(("spheres20[elliptic,noisland,PGS,dense]", spheres(20, "elliptic", False, "PGS", "dense")))
     return out
